@@ -30,6 +30,7 @@ BOUNDS = {'quick': 'blocks Reg(w=2), Counter(w=2), TReg, DelayLine(2), ClockSync
           'thorough': 'same plus three-domain designs for the five small blocks, and width-2 DelayLine, Stack, SynchronousMemory under gating (one and two domains)'}
 for k in ('quick', 'thorough'):
     BOUNDS[k] += '; also two gated drivers sharing one enable wire'
+    BOUNDS[k] += '; enable tied to a Constant block (1 / 0) at placements self and parent'
 
 BLOCKS = ['Reg', 'Counter', 'TReg', 'DelayLine', 'ClockSyncFSM']
 PLACES = ['self', 'parent', 'grand', 'nested', 'nestedbase']
@@ -51,6 +52,10 @@ def shards(tier):
         for e in ('input', 'wide'):
             out.append({'block': b, 'place': 'top', 'en': e, 'domains': 1})
         out.append({'block': b, 'place': 'topmutate', 'en': 'input', 'domains': 1})
+        # the enable is tied to a constant block: always running / never running from the first simulator on
+        for p in ('self', 'parent'):
+            for e in ('const1', 'const0'):
+                out.append({'block': b, 'place': p, 'en': e, 'domains': 1})
         for p in ('self', 'parent', 'top'):
             out.append({'block': b, 'place': p, 'en': 'input', 'domains': 1, 'nobase': 1})
         # a monitor-style leaf (inputs only) inside the gated hierarchy
@@ -176,6 +181,9 @@ def build(d, gated):
             pass
         elif d['en'] in ('input', 'wide'):
             free.append(en)
+        elif d['en'] in ('const1', 'const0'):
+            # the enable is tied to a constant (a domain that is always / never running)
+            py4hw.Constant(hw, tag + '_enc', 1 if d['en'] == 'const1' else 0, en)
         elif d['en'] in ('self', 'inner'):
             # enable = (bit 0 of the gated block's own output) OR kick; 'inner': the two cells live inside the gated hierarchy
             kick = hw.wire(tag + '_kick')
@@ -394,7 +402,12 @@ def run_shard(d):
     res['distinct_nontrivial'] = len(outcomes)
     res['held_leaf_edges'] = stats['held']
     res['advanced_leaf_edges'] = stats['advanced']
-    if stats['held'] == 0 or stats['advanced'] == 0:
+    if d['en'] in ('const1', 'const0'):
+        # a constant enable makes one of the two counts zero by construction: the gated domain must have been seen
+        # advancing (const1) / held (const0) and the ungated base domain advancing
+        if stats['advanced' if d['en'] == 'const1' else 'held'] == 0 and not ex.violations:
+            raise core.HarnessError('vacuous gating exploration: %r %r' % (d, stats))
+    elif stats['held'] == 0 or stats['advanced'] == 0:
         if not ex.violations:
             raise core.HarnessError('vacuous gating exploration: %r %r' % (d, stats))
     for kind, trace, detail in ex.violations:
